@@ -9,7 +9,7 @@
    operations: lying post-handshake-auth client, injection of any non-data control record),
    from ANY configuration of the two endpoints, TLS 1.3 (v13 = true) or TLS <= 1.2. *)
 From Coq Require Import ZArith List Bool.
-From TV Require Import Base.Prelude Model.C16_PostHs Spec.C16_Spec Proofs.C16_PostHs Proofs.C16_Honest.
+From TV Require Import Base.Prelude Model.C16_PostHs Spec.C16_Spec Proofs.C16_PostHs Proofs.C16_Honest Proofs.C16_Heartbeat.
 Import ListNotations.
 Open Scope Z_scope.
 
@@ -46,34 +46,49 @@ Theorem ku_response_exactly_once : forall v13 cc sc nst ops,
   n_ku_resp (ks e) = n_ku_req (ks e) /\ wgen (ks e) = n_ku_sent (ks e) /\ rgen (ks e) = n_ku_rcvd (ks e).
 Proof. exact ku_once_all. Qed.
 
-(* Heartbeat: records are emitted in answer to a heartbeat record only if it parses as a request
-   with >= 16 bytes of padding and the mode allows it; the bytes emitted are exactly the
-   response carrying the request's payload, under the current write generation. *)
+(* Heartbeat.  A record is emitted in answer to a heartbeat record only if it parses as a request
+   with >= 16 bytes of padding and the mode allows it; what is emitted is exactly ONE record, the
+   response carrying the request's payload, and it fits into one record of the responder. *)
 Theorem heartbeat_echo : forall me b me1 out,
   on_heartbeat me b = Some (me1, out) -> out <> [] ->
   exists payload pad, hb_parse b = Some (1, payload, pad) /\ 16 <= zlen pad /\
     hb_recv (cf me) = true /\ hb_sup (cf me) = true /\
-    hb_bytes out = hb_write 2 payload (padding 16) /\
-    (forall r, In r out -> tag r = wgen (ks me)).
+    out = [emit me (MHB (hb_write 2 payload (padding 16)))] /\
+    zlen (hb_write 2 payload (padding 16)) <= recsize (cf me).
 Proof. exact hb_echo. Qed.
 
-(* ... and a request that fits into one record is answered by one record that parses back to
-   the same payload (Heartbeat.write/parse round trip) *)
+(* ... a well-formed request is answered by one record that parses back to the same payload
+   (Heartbeat.write/parse round trip), or -- when the answer would not fit into one record of the
+   responder -- by nothing at all (RFC 6520: too large, silently discarded) *)
 Theorem heartbeat_request_answered : forall me p padlen,
   hb_sup (cf me) = true -> hb_recv (cf me) = true -> zlen p < 65536 -> 16 <= padlen ->
-  3 + zlen p + 16 <= recsize (cf me) ->
-  exists resp, on_heartbeat me (hb_write 1 p (padding padlen)) = Some (me, [emit me (MHB resp)]) /\
-               hb_parse resp = Some (2, p, padding 16).
+  on_heartbeat me (hb_write 1 p (padding padlen)) =
+    Some (me, if recsize (cf me) <? 3 + zlen p + 16 then [] else [emit me (MHB (hb_write 2 p (padding 16)))]) /\
+  hb_parse (hb_write 2 p (padding 16)) = Some (2, p, padding 16).
 Proof. exact hb_request_answered. Qed.
 
-(* The full echo statement (without the "fits into one record" hypothesis) is FALSE of the
-   faithful model: write_heartbeat fragments a message longer than recordSize and the peer
-   answers a fragment.  Witness: recordSize 20, payload = 17 filler bytes ++ [1;0;1;9] ++ 16 bytes, the client's callback
-   receives [9] which was never requested.  (Replayed on the code: known finding.) *)
-Theorem heartbeat_echo_oversize_refuted : exists cc sc ops payload,
-  let s := exec (init true cc sc 0) ops in
-  In (true, OHeartbeat payload 0) ops /\ hb_got (ms (ea s)) = [[9]] /\ payload <> [9].
-Proof. exact hb_oversize_witness. Qed.
+(* ... a request that would have to be fragmented is refused at send time (ValueError): the
+   state does not change and nothing is sent *)
+Theorem heartbeat_oversize_refused : forall s p pl,
+  recsize (cf (ea s)) < zlen (hb_write 1 p (padding pl)) ->
+  fst (act s (OHeartbeat p pl)) = s /\ emitted (snd (act s (OHeartbeat p pl))) = [] /\
+  2000 <= code (snd (act s (OHeartbeat p pl))).
+Proof. exact hb_oversize_refused. Qed.
+
+(* ... and, for EVERY history in which no raw heartbeat record is injected by a deviating peer
+   (all other operations, honest or not, allowed; any record sizes): every payload handed to a
+   heartbeat callback is the payload of a write_heartbeat call made by that same endpoint --
+   never a foreign payload.
+   (Before 9b89f7b this was FALSE of the faithful model and of the code:
+   heartbeat_echo_oversize_refuted exhibited recordSize 20, payload = 17 filler bytes ++
+   [1;0;1;9] ++ 16 bytes, padding 0: write_heartbeat fragmented the message, the peer answered
+   the second fragment and the client's callback received [9].) *)
+Theorem heartbeat_never_foreign_payload : forall v13 cc sc nst ops,
+  forallb (fun p => no_hb_inject (snd p)) ops = true ->
+  let s := exec (init v13 cc sc nst) ops in
+  (forall p, In p (hb_got (ms (ea s))) -> In p (hb_calls true ops)) /\
+  (forall p, In p (hb_got (ms (eb s))) -> In p (hb_calls false ops)).
+Proof. exact hb_callback_payloads_requested. Qed.
 
 (* Post-handshake authentication: the server's recorded chain / list of authenticated contexts
    changes only when the Certificate is followed by a CertificateVerify whose signature verifies
@@ -100,24 +115,17 @@ Proof. exact pha_single_use_all. Qed.
 
 (* Malformed / unsolicited / not-permitted control records (Spec.bad_control: KeyUpdate with a
    value other than 0/1 or a wrong length or outside TLS 1.3, heartbeat when not negotiated or
-   in peer_not_allowed_to_send mode, CertificateRequest to an endpoint that did not offer PHA,
-   Certificate without an outstanding request or with an unknown/empty/used context, stray
-   CertificateVerify/Finished/other handshake messages, NewSessionTicket outside TLS 1.3): the
-   reader sends the fatal alert, closes, and returns nothing.
-   PARTIAL: the case "NewSessionTicket sent to a TLS 1.3 SERVER" is excluded -- see below. *)
-Theorem malformed_or_unsolicited_control_fatal_partial : forall v13 me m inc' d,
+   in peer_not_allowed_to_send mode, CertificateRequest to an endpoint that did not offer PHA or
+   with an empty compression list, Certificate without an outstanding request or with an
+   unknown/empty/used context, stray CertificateVerify/Finished/other handshake messages,
+   NewSessionTicket to anything but a TLS 1.3 client): the reader sends the fatal alert, closes,
+   and returns nothing.  FULL: no class is excluded.
+   (Before df198c5 the class "NewSessionTicket sent to a TLS 1.3 SERVER" had to be excluded
+   (..._partial) and ..._refuted showed a server storing the client's ticket and going on.) *)
+Theorem malformed_or_unsolicited_control_fatal : forall v13 me m inc' d,
   bad_control v13 me m = Some d ->
-  ~ (m = MNST /\ v13 = true /\ is_cl (cf me) = false) ->
   rloop v13 me (mkrec (rgen (ks me)) m :: inc') = (fatal me d, inc', [emit me (MAlert true d)], 100 + d).
 Proof. exact bad_control_fatal. Qed.
-
-(* the excluded case is false of the faithful model (and of the code: known finding): a TLS 1.3
-   server stores a NewSessionTicket sent by the client and goes on *)
-Theorem malformed_or_unsolicited_control_fatal_refuted : exists me inc',
-  bad_control true me MNST = Some 10 /\
-  closed (io (fst (fst (fst (rloop true me (mkrec (rgen (ks me)) MNST :: inc')))))) = false /\
-  tickets (ms (fst (fst (fst (rloop true me (mkrec (rgen (ks me)) MNST :: inc')))))) = 1.
-Proof. exact nst_to_server_witness. Qed.
 
 (* once closed (fatal alert sent or received, close) an endpoint consumes and emits nothing and
    returns only bytes it had already buffered *)
@@ -181,6 +189,20 @@ Example ex_init_ok : init_ok ex_cc ex_sc.
 Proof. exact init_ok_ex. Qed.
 
 Example ex_heartbeat :
-  exists resp, on_heartbeat (ep0 ex_sc) (hb_write 1 [7;8;9] (padding 16)) = Some (ep0 ex_sc, [emit (ep0 ex_sc) (MHB resp)])
-               /\ hb_parse resp = Some (2, [7;8;9], padding 16).
-Proof. apply hb_request_answered; vm_compute; congruence. Qed.
+  on_heartbeat (ep0 ex_sc) (hb_write 1 [7;8;9] (padding 16)) =
+    Some (ep0 ex_sc, [emit (ep0 ex_sc) (MHB (hb_write 2 [7;8;9] (padding 16)))]).
+Proof. vm_compute. reflexivity. Qed.
+
+(* the former counter-example: the oversize request is now refused and nothing reaches the callback;
+   a client's NewSessionTicket now kills the connection at the server *)
+Example ex_heartbeat_oversize_refused :
+  let pl := repeat 0 17 ++ [1; 0; 1; 9] ++ repeat 5 16 in
+  let s := exec (init true (mkcfg true true true true true true false false 7 20 0) ex_sc 0)
+             [(true, OHeartbeat pl 0); (false, ORead 0); (true, ORead 0)] in
+  hb_got (ms (ea s)) = [] /\ ab s = [] /\ ba s = [] /\ hb_req (ms (ea s)) = [].
+Proof. vm_compute. repeat split. Qed.
+
+Example ex_ticket_to_server_fatal :
+  let s := exec (init true ex_cc ex_sc 0) [(true, OInject MNST); (false, ORead 0)] in
+  alerts (io (eb s)) = [10] /\ closed (io (eb s)) = true /\ tickets (ms (eb s)) = 0.
+Proof. vm_compute. repeat split. Qed.
